@@ -93,6 +93,42 @@ func VerifC04Create(nMan int) {
 	vfCheckRemovals("blob-still-referenced-by-another-model-is-not-removed")
 }
 
+// VerifC12CreateAfterCrash: an earlier create (or pull, or copy) of "a" was killed between truncating
+// the manifest file and writing it: the file is there and empty. Repeating the create must work as if
+// the name were free (the crash must not have wedged the name).
+func VerifC12CreateAfterCrash(nMan int) {
+	vfRemoved, vfMsgs, vfCreateCalls, vfBaseFailed = nil, nil, 0, false
+	vfArbStore(nMan, false)
+	target := model.Name{Host: "h", Namespace: "n", Model: "a", Tag: "t"}
+	vfStatus = 0
+	delete(vfStore, target) // an unreadable manifest is not listed
+	vfTruncated = &target
+	defer func() { vfTruncated = nil }()
+	vfCreateReq = api.CreateRequest{Model: "h/n/a:t", From: "h/n/b:t"}
+	s := &Server{}
+	s.CreateHandler(&gin.Context{Request: &http.Request{}})
+	verifReach("create-returned")
+	errs, succ := 0, 0
+	for _, v := range vfMsgs {
+		switch r := v.(type) {
+		case gin.H:
+			if _, ok := r["error"]; ok {
+				errs++
+			}
+		case api.ProgressResponse:
+			if r.Status == "success" {
+				succ++
+			}
+		}
+	}
+	verifAssert(vfStatus != 500 || errs+succ > 0, "repeat-of-an-interrupted-create-is-not-refused-because-of-the-empty-manifest")
+	if !vfBaseFailed && vfCreateCalls > 0 && errs == 0 {
+		verifReach("create-succeeded")
+	}
+	verifAssert(vfBaseFailed || vfCreateCalls == 1, "repeat-of-an-interrupted-create-reaches-the-model-writer")
+	vfCheckRemovals("blob-still-referenced-by-another-model-is-not-removed")
+}
+
 // ---- copy: the real CopyHandler ----
 
 var (
